@@ -309,6 +309,40 @@ pub fn run(args: &[String]) {
         };
         writeln!(w, "lit\ttiming\t{}\t-\t{}\t{oracle}", cps(&text), lit.map(|d| d.name().to_string()).unwrap_or_default()).unwrap();
     }
+    // negated imaginary floats: an imaginary float of the negated value, typed complex (C10, C08)
+    for (num, isint) in nums.iter().map(|(a, b)| (a.as_str(), *b)) {
+        if isint {
+            continue;
+        }
+        for sp in ["", " "] {
+            let text = format!("-{num}{sp}im");
+            let (lit, ty, panic) = asg_first_literal(&format!("{text};"));
+            let want = -num.replace('_', "").parse::<f64>().unwrap_or(f64::NAN);
+            let oracle = if let Some(p) = panic {
+                format!("FAIL C03: analysis panicked on {text}: {}", &p[..p.len().min(60)])
+            } else {
+                match &lit {
+                    Some(d) if d.name() == "ImaginaryFloat" => {
+                        let inner = d.arg(0).cloned().unwrap_or(D::Atom("".into()));
+                        let v = match inner.field("value") {
+                            Some(D::Str(s)) => s.parse::<f64>().ok(),
+                            Some(D::Atom(a)) => a.parse::<f64>().ok(),
+                            _ => None,
+                        };
+                        if v.map(|x| x.to_bits()) != Some(want.to_bits()) {
+                            format!("FAIL C10: {text} became {d:?}")
+                        } else if !ty.as_deref().map(|t| t.starts_with("Complex")).unwrap_or(false) {
+                            format!("FAIL C08: {text} typed {ty:?}")
+                        } else {
+                            "ok".to_string()
+                        }
+                    }
+                    other => format!("FAIL C10,C08: {text} became {other:?}, not an imaginary float literal"),
+                }
+            };
+            writeln!(w, "lit\ttiming\t{}\t-\t{}\t{oracle}", cps(&text), lit.map(|d| d.name().to_string()).unwrap_or_default()).unwrap();
+        }
+    }
     for (t, v) in [("true", "true"), ("false", "false")] {
         let (lit, ty, _) = asg_first_literal(&format!("{t};"));
         let ok = matches!(&lit, Some(d) if d.name() == "Bool" && d.arg(0).and_then(|b| b.field("value")).map(|x| x.name() == v).unwrap_or(false)) && ty.as_deref() == Some("Bool 1");
